@@ -220,6 +220,18 @@ def eap_attrs(rng, valid=True):
     return attrs
 
 
+def ttl_attr(rng, cfg):
+    """an attribute of the configured TTL type with a value around the interesting boundaries"""
+    a, b = cfg.opts["ttl"]
+    val = rng.choice([b"", b"\x00", b"\x01", b"\x02", b"\x03", b"\x00\x00\x00\x00", b"\x00\x00\x00\x01", b"\x00\x00\x00\x02", b"\x00\x00\x00\x03",
+                      b"\x00\x00\x01\x00", b"\x00\x01\x00\x00", b"\x00\x00\x00\xff", R.rand_bytes(rng, rng.choice([1, 2, 4, 5]))])
+    if b == 256:
+        return (a, val)
+    subs = [(rng.randrange(1, 256), R.rand_bytes(rng, 3))] * rng.randrange(0, 2) + [(b, val)] + [(7, b"zz")] * rng.randrange(0, 2)
+    rng.shuffle(subs)
+    return (26, a.to_bytes(4, "big") + b"".join(bytes([t, len(v) + 2]) + v for t, v in subs))
+
+
 def generic_history(exe, rng, idx, emph, cfg=None):
     E = lambda k, d=0.0: emph.get(k, d)
     cfg = cfg or W.rand_cfg(rng, rewrites=E("rewrites", 0.6) > rng.random(), ttl=E("ttl", 0.5) > rng.random(),
@@ -263,14 +275,9 @@ def generic_history(exe, rng, idx, emph, cfg=None):
                         extra.append((rng.choice([24, 25, 11, 18]), R.rand_bytes(rng, max(0, l))))
                         n -= l + 2
                 if rng.random() < E("p_ttlattr", 0.15):
-                    a, b = cfg.opts["ttl"]
-                    val = rng.choice([b"", b"\x00", b"\x01", b"\x02", b"\x00\x00\x00\x00", b"\x00\x00\x00\x01", b"\x00\x00\x00\x02", b"\x00\x00\x01\x00", R.rand_bytes(rng, rng.choice([1, 2, 4, 5]))])
-                    if b == 256:
-                        extra = (extra or []) + [(a, val)]
-                    else:
-                        subs = [(rng.randrange(1, 256), R.rand_bytes(rng, 3))] * rng.randrange(0, 2) + [(b, val)] + [(7, b"zz")] * rng.randrange(0, 2)
-                        rng.shuffle(subs)
-                        extra = (extra or []) + [(26, a.to_bytes(4, "big") + b"".join(bytes([t, len(v) + 2]) + v for t, v in subs))]
+                    extra = (extra or []) + [ttl_attr(rng, cfg)]
+                    if rng.random() < 0.15:
+                        extra.append(ttl_attr(rng, cfg))
                 pkt = h.make_request(k, code=code, extra=extra, chap=rng.random() < E("p_chap", 0.05),
                                      user=(False if rng.random() < 0.05 else None))
                 if rng.random() < E("p_mutate", 0.15):
@@ -313,6 +320,8 @@ def generic_history(exe, rng, idx, emph, cfg=None):
                         attrs.append((26, body))
                 if rng.random() < 0.1:
                     attrs.append((26, R.rand_bytes(rng, rng.randrange(0, 5))))
+            if rng.random() < E("p_replyttl", 0.05):
+                attrs = (attrs or [(18, b"hi")]) + [ttl_attr(rng, cfg)]
             if rng.random() < E("p_replyuser", 0.2):
                 attrs = (attrs or [(18, b"hi")]) + [(1, rng.choice(USERS))]
             pkt = h.make_reply(ent, attrs=attrs)
